@@ -202,6 +202,47 @@ class _Renumber:
         yield 'all-volumes', result[9].pluses == {ren[s] for s in mi} and set(result.keys()) == {7, 9}
 
 
+@contract(DUP.renumber_surfaces, props=['C13', 'C08', 'C16'], name='Duplicates.renumber_surfaces[any-renumbering]')
+class _RenumberP:
+    """For an arbitrary renumbering (symbolic representatives of surfaces 1..3) and every PLUS / MINUS subset shape:
+    a number is on a side of the renumbered volume iff it is the representative of a surface that was on that side."""
+    def cases(S):
+        subsets = [c for n in range(0, 3) for c in itertools.combinations((1, 2, 3), n)]
+        for pl in subsets:
+            for mi in subsets:
+                yield f'plus={pl}/minus={mi}', {'pl': pl, 'mi': mi,
+                                                'ren': dict(zip((1, 2, 3), S.ints(['rep1', 'rep2', 'rep3'])))}
+
+    def call(pl, mi, ren):
+        d = DictVolumeT4()
+        d[7] = VolumeT4(set(pl), set(mi), ops=('UNION', (9,)), idorigin=[(1, 2)], fictive=False)
+        d[9] = VolumeT4(set(mi), set(pl), fictive=True)
+        import contextlib
+        import io
+        with contextlib.redirect_stdout(io.StringIO()):
+            res = DUP.renumber_surfaces(d, ren)
+        keys = list(res.keys())
+        return [(k, res[k].pluses, res[k].minuses, res[k].ops, res[k].fictive, res[k].idorigin) for k in keys]
+
+    def ensures(result, pl, mi, ren):
+        def members(x):
+            return list(x.items) if not isinstance(x, (set, frozenset)) else list(x)
+
+        def same(label, got, want_keys):
+            got = members(got)
+            for s_ in want_keys:
+                yield f'{label}:representative-of-{s_}-present', Or(*[m == ren[s_] for m in got])
+            for i, m in enumerate(got):
+                yield f'{label}:member{i}-is-a-representative', Or(*[m == ren[s_] for s_ in want_keys])
+        yield 'all-volumes-in-order', [r[0] for r in result] == [7, 9]
+        yield from same('volume7/plus', result[0][1], pl)
+        yield from same('volume7/minus', result[0][2], mi)
+        yield from same('volume9/plus', result[1][1], mi)
+        yield from same('volume9/minus', result[1][2], pl)
+        yield 'rest-untouched', (result[0][3] == ('UNION', (9,)) and result[0][4] is False and result[0][5] == [(1, 2)]
+                                 and result[1][3] is None and result[1][4] is True)
+
+
 def _sweep_c13(tier, seed):
     from harness.sweeps import flag_sweep
     return flag_sweep('C13', tier, seed)
